@@ -56,6 +56,10 @@ func (c *chunkHeader) unmarshal(raw []byte) error {
 	c.typ = chunkType(raw[0])
 	c.flags = raw[1]
 	length := binary.BigEndian.Uint16(raw[2:])
+	if length < chunkHeaderSize {
+		// the subtraction below would wrap and the chunk swallow whatever follows it
+		return fmt.Errorf("%w: length field %d, %d is the minimum", ErrChunkHeaderTooSmall, length, chunkHeaderSize)
+	}
 
 	// Length includes Chunk header
 	valueLength := int(length - chunkHeaderSize)
@@ -63,7 +67,12 @@ func (c *chunkHeader) unmarshal(raw []byte) error {
 
 	if lengthAfterValue < 0 {
 		return fmt.Errorf("%w: remain %d req %d ", ErrChunkHeaderNotEnoughSpace, valueLength, len(raw)-chunkHeaderSize)
-	} else if lengthAfterValue < 4 {
+	} else if padding := getPadding(valueLength); lengthAfterValue < 4 || padding > 0 {
+		// raw is the rest of the packet: what lies beyond this chunk's own padding
+		// belongs to the chunks bundled behind it and must not change the verdict.
+		if lengthAfterValue >= 4 {
+			lengthAfterValue = padding
+		}
 		// https://tools.ietf.org/html/rfc4960#section-3.2
 		// The Chunk Length field does not count any chunk padding.
 		// Chunks (including Type, Length, and Value fields) are padded out
